@@ -440,6 +440,57 @@ def withReg (cfg : Cfg) (r : List (Str × Str)) : Cfg :=
   { isWord := cfg.isWord, isSpace := cfg.isSpace, filters := cfg.filters, applyF := cfg.applyF, templates := r,
     strict := cfg.strict, markerPre := cfg.markerPre, markerSuf := cfg.markerSuf }
 
+/-! ### several instances alive: each `Ribosome` is its own three attributes
+
+  What a render on an instance depends on (besides the environment and the bindings): `strict`, `filters` (here: which of
+  the case's filter tables the instance holds) and `templates`.  All three are public and may be re-assigned on a live
+  instance.  An operation is addressed to ONE instance; the others are untouched (`worldStep`). -/
+
+structure Inst where
+  strict : Bool := false
+  fset : String := ""
+  templates : List (Str × Str) := []
+deriving Repr, DecidableEq
+
+inductive InstOp where
+  | create (strict : Bool) (fset : String) (entries : List RegOp)   -- `Ribosome(strict=…, filters=…, templates={…})`
+  | setStrict (b : Bool)                                            -- `rb.strict = b`
+  | setFilters (fset : String)                                      -- `rb.filters = …`
+  | reg (op : RegOp)                                                -- any of the registration ways
+deriving Repr, DecidableEq
+
+def Inst.step (i : Inst) : InstOp → Inst
+  | .create s f es => { strict := s, fset := f, templates := regRun [] es }
+  | .setStrict b => { strict := b, fset := i.fset, templates := i.templates }
+  | .setFilters f => { strict := i.strict, fset := f, templates := i.templates }
+  | .reg op => { strict := i.strict, fset := i.fset, templates := regStep i.templates op }
+
+def instGet (w : List (String × Inst)) (id : String) : Option Inst :=
+  match w with
+  | [] => none
+  | (k, v) :: r => if k = id then some v else instGet r id
+
+def instSet (w : List (String × Inst)) (id : String) (i : Inst) : List (String × Inst) :=
+  match w with
+  | [] => [(id, i)]
+  | (k, v) :: r => if k = id then (id, i) :: r else (k, v) :: instSet r id i
+
+/-- one operation addressed to the instance `p.1`: a `create` (re)places it, anything else needs it to exist -/
+def worldStep (w : List (String × Inst)) (p : String × InstOp) : List (String × Inst) :=
+  match p.2, instGet w p.1 with
+  | .create s f es, _ => instSet w p.1 (Inst.step {} (.create s f es))
+  | op, some i => instSet w p.1 (i.step op)
+  | _, none => w
+
+def worldRun (w : List (String × Inst)) (ops : List (String × InstOp)) : List (String × Inst) := ops.foldl worldStep w
+
+/-- the life of ONE instance under its own operations (it may not exist yet: `none`) -/
+def ownStep (o : Option Inst) (op : InstOp) : Option Inst :=
+  match op, o with
+  | .create s f es, _ => some (Inst.step {} (.create s f es))
+  | op, some i => some (i.step op)
+  | _, none => none
+
 /-- ASCII `\w` and `\s` (the driver extends them with the non-ASCII code points the harness reports) -/
 def asciiWord (c : Nat) : Bool :=
   (48 ≤ c && c ≤ 57) || (65 ≤ c && c ≤ 90) || (97 ≤ c && c ≤ 122) || c == 95
